@@ -67,6 +67,12 @@ pub trait Check: Sync {
     fn unit_label(&self, _tier: Tier, _unit: usize) -> String {
         String::new()
     }
+    /// How often a replay re-runs the case before concluding that it does not
+    /// fail.  1 for deterministic subjects; more where the subject itself has
+    /// uncontrolled nondeterminism (std HashMap iteration order in the solver).
+    fn replay_attempts(&self) -> u32 {
+        1
+    }
 }
 
 #[derive(Clone, Debug)]
@@ -741,7 +747,17 @@ pub fn check_main(check: &dyn Check, tier: Tier) -> i32 {
                 .status();
             if let Ok(st) = st {
                 if st.code() == Some(0) {
-                    nondeterministic.push(v.sig.clone());
+                    if check.replay_attempts() > 1 {
+                        // the subject itself is nondeterministic (declared by the
+                        // check): the observed violation stands
+                        lines.push(format!(
+                            "  note: [{}] did not fail again in {} replays (subject nondeterminism, see the check's assumptions)",
+                            v.sig,
+                            check.replay_attempts()
+                        ));
+                    } else {
+                        nondeterministic.push(v.sig.clone());
+                    }
                 }
             }
         }
@@ -886,10 +902,15 @@ pub fn replay_file(checks: &[&dyn Check], path: &str) -> i32 {
     };
     println!("replaying {id} {} unit={unit} sub={sub}", tier.name());
     println!("  recorded: [{}] {}", v["signature"].as_str().unwrap_or(""), v["detail"].as_str().unwrap_or(""));
-    if replay_case(*check, tier, unit, sub) {
-        println!("VIOLATION property={id} replay={path}");
-        1
-    } else {
-        0
+    let attempts = check.replay_attempts();
+    for a in 0..attempts {
+        if replay_case(*check, tier, unit, sub) {
+            if attempts > 1 {
+                println!("  (failed on attempt {} of up to {attempts})", a + 1);
+            }
+            println!("VIOLATION property={id} replay={path}");
+            return 1;
+        }
     }
+    0
 }
